@@ -3,8 +3,13 @@ import PsVerif.Generated.Structure
 namespace PsVerif.Props.Ties
 open PsVerif.Generated
 
+/-- multiset inclusion: every entry of `xs` occurs in `allowed` at least as often.  A site that disappears
+from the source cannot hurt; a new one (or one more of a kind) breaks the tie and has to be reviewed. -/
+def within (xs allowed : List (String × String × String)) : Bool :=
+  xs.all (fun x => xs.count x ≤ allowed.count x)
+
 /-! ## determinism (C17): every place where a Go map is iterated, and no clock/random/address use -/
-theorem map_sites : Structure.mapSites =
+def allowedMapSites : List (String × String × String) :=
     [(".", "NewInterpreter", "maps.Clone cidInit"),
      (".", "ReadCMap", "maps.Keys intp.CMapDirectory"),
      (".", "bCopy", "range a"),
@@ -18,7 +23,8 @@ theorem map_sites : Structure.mapSites =
      ("type1", "Font.WidthsMapPDF", "range f.Glyphs"),
      ("type1", "Font.encodeCharstrings", "range f.Glyphs"),
      ("type1", "Read", "maps.Keys cs"),
-     ("type1", "Read", "range intp.FontDirectory")] := rfl
+     ("type1", "Read", "range intp.FontDirectory")] 
+theorem map_sites : within Structure.mapSites allowedMapSites = true := by decide
 
 theorem no_clock_no_addr : Structure.clockSites = [] := rfl
 
